@@ -163,6 +163,11 @@ def hook_paths(chk, repo, mi, fn, buf, rule):
                             want = f"{raw}.dequantize()" if quantized_branch else raw
                             ok = src == want and U(nb["qtype"]) == "module.activation_qtype" and U(nb["axis"]) == "None" and quantized_branch is not None
                     chk.require(rule, f"{mi.rel}:{ef[4]}", ok, f"{fn.name}: output range is absmax_scale(raw qforward output (dequantized if quantized), module.activation_qtype, axis=None): `{vt[:110]}`", qn, "raw output measured by absmax_scale", "any batch: the range is measured on the already quantized (saturated) output or for another qtype")
+        if guarded and p.end[0] in ("return", "fall"):
+            stored_here = any(ef[0] == "store" and ef[2] == buf and U(ef[1]) == "module" for ef in p.effects)
+            conds = " & ".join(p.cond_texts())[:140]
+            chk.require(rule, f"{mi.rel}:{p.end[2]}", stored_here, f"{fn.name}: module.{buf} is updated on this path ({conds})", qn, f"batch skipped for {buf}",
+                        f"a batch that takes this path (e.g. an all-zero raw output, a zero range): it is left out of the moving average of {buf}, and an all-zero first batch no longer initialises it")
         if buf == "output_scale" and guarded and p.end[0] in ("return", "fall"):
             ret = U(p.end[1]) if p.end[1] is not None else "None"
             chk.require(rule, f"{mi.rel}:{p.end[2]}", ret == "module.forward(input[0])", f"{fn.name}: returns the output re-evaluated with the updated scale: `{ret}`", qn, "hook returns re-evaluated output", "any calibrated forward: downstream modules see an output quantized with the stale scale")
